@@ -591,3 +591,39 @@ def _u256_set(ex, args, ins, where):
 @intrinsic('(*github.com/decred/dcrd/dcrec/secp256k1/v4.FieldVal).Normalize')
 def _fv_normalize(ex, args, ins, where):
     return args[0]
+
+
+# ------------------------------------------------------------------ ModNScalar: fixed-size array forms of the contract
+def _u256_to_bytes(v):
+    if is_sym(v):
+        return [simp(z3.Extract(255 - 8 * i, 248 - 8 * i, v)) for i in range(32)]
+    return list(int(v).to_bytes(32, 'big'))
+
+
+@intrinsic('(*github.com/decred/dcrd/dcrec/secp256k1/v4.ModNScalar).SetBytes')
+def _modn_setbytes(ex, args, ins, where):
+    """SetBytes(*[32]byte) uint32: as SetByteSlice; the overflow indication is 1 or 0"""
+    arr = list(ex.load(args[1], where, None))
+    ov = _set_byte_slice(ex, args[0], ex.mkslice(arr), SECP_N, where)
+    if is_sym(ov):
+        return simp(z3.If(ov, z3.BitVecVal(1, 32), z3.BitVecVal(0, 32)))
+    return 1 if ov else 0
+
+
+@intrinsic('(*github.com/decred/dcrd/dcrec/secp256k1/v4.ModNScalar).PutBytes')
+def _modn_putbytes(ex, args, ins, where):
+    ex.store(args[1], _u256_to_bytes(_u256_get(ex, args[0], where)), where, None)
+    return None
+
+
+@intrinsic('(*github.com/decred/dcrd/dcrec/secp256k1/v4.ModNScalar).Bytes')
+def _modn_bytes(ex, args, ins, where):
+    return _u256_to_bytes(_u256_get(ex, args[0], where))
+
+
+@intrinsic('(*github.com/decred/dcrd/dcrec/secp256k1/v4.ModNScalar).Equals')
+def _modn_equals(ex, args, ins, where):
+    a, b = _u256_get(ex, args[0], where), _u256_get(ex, args[1], where)
+    if is_sym(a) or is_sym(b):
+        return simp(to_bv(a, 256) == to_bv(b, 256))
+    return a == b
